@@ -2,7 +2,7 @@
     from a subscriber's Recv channel. *)
 From Coq Require Import List NArith Bool Lia.
 From C33 Require Import C36.Model C36.ProofsBase C36.ProofsOcc C36.ProofsEff C36.ProofsInv
-  C36.ProofsSteps C36.ProofsInv2 C36.ProofsInv3 C36.ProofsInv4.
+  C36.ProofsSteps C36.ProofsInv2 C36.ProofsInvX C36.ProofsInv3 C36.ProofsInv4.
 Import ListNotations.
 Open Scope N_scope.
 
@@ -31,6 +31,15 @@ Lemma gid_set_where s o w : s_gid (set_where s o w) = s_gid s. Proof. reflexivit
 Lemma gid_set_parked s o b w : s_gid (set_parked s o b w) = s_gid s. Proof. reflexivity. Qed.
 Lemma gid_item_where s x w : s_gid (item_where s x w) = s_gid s. Proof. destruct x; reflexivity. Qed.
 Lemma gid_enqueue s t o hi : s_gid (enqueue s t o hi) = s_gid s. Proof. reflexivity. Qed.
+Lemma deliv_sx s k v : s_deliv (sx s k v) = s_deliv s. Proof. reflexivity. Qed.
+Lemma deliv_sl s c t : s_deliv (sl s c t) = s_deliv s. Proof. reflexivity. Qed.
+Lemma deliv_sqb s m : s_deliv (sqb s m) = s_deliv s. Proof. reflexivity. Qed.
+Lemma deliv_sqe s : s_deliv (sqe s) = s_deliv s. Proof. reflexivity. Qed.
+Lemma gid_sx s k v : s_gid (sx s k v) = s_gid s. Proof. reflexivity. Qed.
+Lemma gid_sl s c t : s_gid (sl s c t) = s_gid s. Proof. reflexivity. Qed.
+Lemma gid_sqb s m : s_gid (sqb s m) = s_gid s. Proof. reflexivity. Qed.
+Lemma gid_sqe s : s_gid (sqe s) = s_gid s. Proof. reflexivity. Qed.
+Global Hint Rewrite deliv_sx deliv_sl deliv_sqb deliv_sqe gid_sx gid_sl gid_sqb gid_sqe : frame.
 Lemma go_item_where s x w o' :
   go (item_where s x w) o' = match x with IMsg o => go (set_where s o w) o' | ISent => go s o' end.
 Proof. destruct x; reflexivity. Qed.
